@@ -174,6 +174,46 @@ def check(ev, ctx):
                 off = o
         mine = u + off * NS_S
         return mine == int(ev["want"]), mine
+    if op in ("ecmp", "ediff", "views"):
+        def tai_of(c, sc):
+            if sc == "UTC":
+                off = 0
+                for ts, o in ctx["leap"]:
+                    if ts * NS_S <= c:
+                        off = o
+                return c + off * NS_S
+            return c + ZERO_TAI[sc]
+
+        def from_tai(t, sc):
+            # the reading of TAI instant t in a uniform scale or in UTC (None inside an inserted second: no UTC reading)
+            if sc != "UTC":
+                return t - ZERO_TAI[sc]
+            for o in sorted({0} | {o for _, o in ctx["leap"]}):
+                u = t - o * NS_S
+                if tai_of(u, "UTC") == t:
+                    return u
+            return None
+
+        if op == "ecmp":
+            a, b = tai_of(int(ev["a"]), ev["sa"]), tai_of(int(ev["b"]), ev["sb"])
+            if ev["sa"] == ev["sb"]:
+                a, b = int(ev["a"]), int(ev["b"])
+            mine = (a > b) - (a < b)
+            return mine == ev["want"], mine
+        if op == "ediff":
+            e_in_f = int(ev["e"]) if ev["sf"] == ev["se"] else from_tai(tai_of(int(ev["e"]), ev["se"]), ev["sf"])
+            if e_in_f is None:
+                return False, "no UTC reading"
+            mine = int(ev["f"]) - e_in_f
+            return mine == int(ev["want"]), mine
+        c, sc = int(ev["c"]), ev["s"]
+        t = tai_of(c, sc)
+        u = c if sc == "UTC" else from_tai(t, "UTC")
+        tt = t + 32_184_000_000
+        day = NS_D
+        mine = {"tai": str(t), "utc": "none" if u is None else str(u), "jde_tai": str(t + 15020 * day + 2400000 * day + day // 2),
+                "mjd_tt": str(tt + 15020 * day), "tt_j2k": str(tt - 3155716800 * NS_S), "unix": "none" if u is None else str(u - 2208988800 * NS_S)}
+        return all(mine[k] == ev[k] for k in mine), mine
     if op == "todyn":
         mine = dyn_from_tai(int(ev["t"]), ev["dy"])
         return abs(mine - int(ev["want"])) <= 2, int(mine)
